@@ -237,8 +237,12 @@ def list_block(rng, depth, ordered, clean=True, **kw) -> list[str]:
                 inner.append(list_block(rng, depth + 1, ordered=rng.random() < 0.3, clean=clean, **kw))
             elif r < 0.9:
                 inner.append(code_block(rng, clean))
-            else:
+            elif r < 0.95:
                 inner.append(["> " + l for l in paragraph(rng, **kw)])
+            else:
+                # a quote holding a (possibly loose) list, inside the list item
+                q = list_block(rng, depth + 2, ordered=rng.random() < 0.3, clean=clean, **kw)
+                inner.append([("> " + l) if l else ">" for l in q])
         body = join_blocks(inner, tight=(not loose and all(len(b_) >= 1 for b_ in inner) and nblocks == 1))
         if nblocks > 1 and not loose:
             body = join_blocks(inner)
